@@ -67,6 +67,8 @@ class Obligation:
             d["facts"] = self.facts
         if self.witness:
             d["witness"] = self.witness
+        if self.signature and not self.ok:
+            d["signature"] = self.signature
         return d
 
 
